@@ -80,6 +80,21 @@ Theorem C13_raw_alloc_never_decreases :
   raw_alloc c s size align r = (s', res) -> alloc_bytes c s <= alloc_bytes c s'.
 Proof. exact raw_alloc_never_decreases. Qed.
 
+(* "with SHRINKS=false / WithoutShrink a shrink never decreases it": through the wrapper or with the
+   setting off, a shrink leaves the arena alone or allocates a new block and copies *)
+Theorem C13_optout_shrink_never_decreases_allocated :
+  forall c s0 o r i,
+  cfg_ok c -> inv c s0 -> cur s0 = Cur i -> shrink_opted_out c o -> op_ok2 c s0 o -> op_resp_ok2 c s0 o r ->
+  alloc_bytes c s0 <= alloc_bytes c (fst (step c s0 o r)).
+Proof. exact optout_shrink_never_decreases_allocated. Qed.
+
+(* "shrinking any other block reclaims nothing": not the newest block, alignment already satisfied *)
+Theorem C13_nonlast_fit_shrink_keeps_state :
+  forall c s ptr osize oalign nsize nalign r,
+  divides nalign ptr = true -> is_last c s ptr osize = false ->
+  raw_shrink c s ptr osize oalign nsize nalign r = (s, inl (mkRO ptr osize false)).
+Proof. exact nonlast_fit_shrink_keeps_state. Qed.
+
 Print Assumptions C13_dealloc_then_alloc_same_address_up.
 Print Assumptions C13_grow_newest_in_place_up.
 Print Assumptions C13_dealloc_optout_keeps_stats.
@@ -90,3 +105,5 @@ Print Assumptions C13_dealloc_keeps_invariant.
 Print Assumptions C13_realign_is_the_code.
 Print Assumptions C13_growing_step_never_decreases_allocated.
 Print Assumptions C13_raw_alloc_never_decreases.
+Print Assumptions C13_optout_shrink_never_decreases_allocated.
+Print Assumptions C13_nonlast_fit_shrink_keeps_state.
